@@ -1,5 +1,14 @@
 package main
 
 import (
+	_ "verif/props/c01"
+	_ "verif/props/c02"
+	_ "verif/props/c03"
+	_ "verif/props/c09"
+	_ "verif/props/c10"
+	_ "verif/props/c14"
+	_ "verif/props/c20"
+	_ "verif/props/c27"
+	_ "verif/props/c28"
 	_ "verif/props/c36"
 )
